@@ -85,6 +85,9 @@ func (x *Engine) intrinsic(fr *Frame, st *State, name string, callee *ssa.Functi
 			x.bumpEpoch(st)
 		}
 		x.atomicEvent(fr, st, "store", a, old, args[1].T, pos)
+		if x.onWrite != nil {
+			x.onWrite(st, a, x.name("pv", "Int", old), args[1].T, "true", pos)
+		}
 		return Val{}, true
 	case strings.HasPrefix(name, "sync/atomic.Add"):
 		a := x.atomicAddr(fr, st, args[0], pos)
@@ -97,6 +100,9 @@ func (x *Engine) intrinsic(fr *Frame, st *State, name string, callee *ssa.Functi
 			x.bumpEpoch(st)
 		}
 		x.atomicEvent(fr, st, "add", a, old, nv, pos)
+		if x.onWrite != nil {
+			x.onWrite(st, a, old, nv, "true", pos)
+		}
 		return Val{T: nv, Typ: rt()}, true
 	case strings.HasPrefix(name, "sync/atomic.CompareAndSwap"):
 		a := x.atomicAddr(fr, st, args[0], pos)
@@ -109,6 +115,9 @@ func (x *Engine) intrinsic(fr *Frame, st *State, name string, callee *ssa.Functi
 			x.bumpEpoch(st)
 		}
 		x.atomicEvent(fr, st, "cas:"+ok, a, cur, args[2].T, pos)
+		if x.onWrite != nil {
+			x.onWrite(st, a, cur, args[2].T, ok, pos)
+		}
 		return Val{T: ok, Typ: types.Typ[types.Bool]}, true
 	case strings.HasPrefix(name, "sync/atomic.Swap"):
 		a := x.atomicAddr(fr, st, args[0], pos)
